@@ -72,7 +72,7 @@ let () =
            run (coq_string name) v
          with Failure _ | Invalid_argument _ -> VE (z_of_int 98)) in
       Buffer.clear buf; print buf out; Buffer.add_char buf '\n';
-      print_string (Buffer.contents buf)
+      print_string (Buffer.contents buf); flush stdout
     done
   with End_of_file -> ());
   flush stdout
